@@ -413,9 +413,9 @@ func (result *GT) PairingSum(a []*G1Affine, b []*G2Affine, c []*G1Affine, d []*G
 	var preparedPairs *C.embedded_pairing_bls12_381_prepared_pair_t
 	numPreparedPairs := C.size_t(len(c))
 	if numPreparedPairs != 0 {
-		cLen := numAffinePairs * C.sizeof_embedded_pairing_bls12_381_g1affine_t
-		dLen := numAffinePairs * C.sizeof_embedded_pairing_bls12_381_g2prepared_t
-		pairsLen := numAffinePairs * C.sizeof_embedded_pairing_bls12_381_prepared_pair_t
+		cLen := numPreparedPairs * C.sizeof_embedded_pairing_bls12_381_g1affine_t
+		dLen := numPreparedPairs * C.sizeof_embedded_pairing_bls12_381_g2prepared_t
+		pairsLen := numPreparedPairs * C.sizeof_embedded_pairing_bls12_381_prepared_pair_t
 
 		buffer := C.malloc(cLen + dLen + pairsLen)
 		defer C.free(buffer)
